@@ -1,46 +1,205 @@
-"""COMPOSE - the default slot chain with all rule kinds on one resource (growth item 1 of DESIGN section 4).
+"""COMPOSE - the default global slot chain with every rule kind loaded at once (growth item 1 of DESIGN section 4).
 
 Not one of the twenty properties: it validates whole-API executions against the COMPOSITION of the module specs
-(spec/SentinelOps.tla): flow -> isolation -> hot-parameter -> circuit breaker, first blocking slot wins and nothing after it
-runs, only admitted requests shape any module's state.  It backs C16 (short-circuit in the real default chain), C02, C04,
-C06 and C03 (their clauses in the presence of the other modules); `bin/check C16 thorough` runs it as an extra stage.
+(spec/SentinelOps.tla): system -> flow -> isolation -> hot-parameter (concurrency, then QPS) -> circuit breaker on one or two
+resources, inbound / outbound entries, system rules on the global inbound node, reloads of every module while entries are in
+flight, completions with an error (Exit(WithError) / api.TraceError), late and repeated calls.  The first blocking slot wins
+and nothing after it runs; only admitted requests shape any module's state (one exception, the design of the code: the token
+bucket of a hot-parameter QPS rule is charged when the hotspot slot is passed, also when the breaker then refuses).
+It backs C16 (short-circuit / order in the real default chain), C07, C02, C04, C05, C06, C03, C14 (their clauses in the presence
+of the other modules); `bin/check C16 thorough` runs it as an extra stage.
 
-S1  TLC checks spec/Sentinel.tla: the single-module caps (IsoCap, HotCap, FlowCap), BreakerQuiet and BlockedInvisible hold
-    in the composed model for all 16 combinations of present / absent rules.
-S2  scenarios: one per transition of a smaller bounded instance, TLC simulations, seeded random histories.
-S3  harness/cmd/c21 (api.Entry with batch counts and arguments, TraceError, Exit, virtual clock in 500 ms ticks).
-S4  spec/Sentinel_Trace.tla judges every decision and block type.
+S1  TLC checks spec/Sentinel.tla on several bounded instances (run side by side): the single-module caps, gauge conservation,
+    ChainExact (with its corollaries SystemFirst, ReloadRespected, BreakerQuiet), BlockedInvisible, Independence,
+    IndependentDecision, ReloadKeeps; eight spec-level mutants must each be rejected by the clause named for it.
+S2  scenarios: one per transition of small bounded instances, TLC simulations, seeded random histories, directed ones.
+S3  harness/cmd/c21 (public API only, virtual clock in 500 ms ticks).
+S4  spec/Sentinel_Trace.tla judges every decision, block type and gauge.
 """
-import json, os
+import json, os, time, threading
 from vlib import main, write_ndjson, read_ndjson, MachineryError
 
 CFG = """SPECIFICATION Spec
 CONSTANTS
-  Rules <- %(rules)s
-  Args = {"a", "b", "none"}
-  Batches = {1, 2}
-  Steps = {1, 2}
-  MaxOps = %(maxops)d
-  MaxT = %(maxt)d
-VIEW view
+  Res = %(Res)s
+  Rules <- %(Rules)s
+  Reloads <- %(Reloads)s
+  Args = %(Args)s
+  Batches = %(Batches)s
+  Types = %(Types)s
+  Steps = %(Steps)s
+  MaxOps = %(MaxOps)d
+  MaxT = %(MaxT)d
+  MaxRel = %(MaxRel)d
+  WithTrace = %(WithTrace)s
+  WithLate = %(WithLate)s
+  Mut = "%(Mut)s"
+%(view)s
 %(props)s
 CHECK_DEADLOCK FALSE
 %(extra)s"""
-PROPS = 'INVARIANTS IsoCap HotCap FlowCap\nPROPERTIES BreakerQuiet BlockedInvisible'
+INV = 'GaugeConserved HotConserved IsoCap HotCap FlowCap SysCap HqRange'
+ACT = 'ChainExact BlockedInvisible Independence ReloadKeeps'
+COROLLARIES = 'SystemFirst ReloadRespected BreakerQuiet'      # implied by ChainExact: checked in the thorough tier and by the mutants
+A2, A3, AN = '{"a", "none"}', '{"a", "b", "none"}', '{"none"}'
+IO, OUT, IN = '{"in", "out"}', '{"out"}', '{"in"}'
 
 
-def cfg(rules='MCRules', maxops=4, maxt=6, props=PROPS, extra=''):
-    return CFG % dict(rules=rules, maxops=maxops, maxt=maxt, props=props, extra=extra)
+def inst(name, Rules, Res='{1}', Reloads='None', Args=A2, Batches='{1}', Types=IO, Steps='{1, 2}', MaxOps=3, MaxT=5, MaxRel=0,
+         WithTrace='FALSE', WithLate='FALSE', Mut='none', inv=INV, act=ACT, extra='', view='VIEW view'):
+    d = dict(locals())
+    d['props'] = ('INVARIANTS %s\n' % inv if inv else '') + ('PROPERTIES %s\n' % act if act else '')
+    return d
 
 
-def maximal(hs):
-    keys = sorted(json.dumps(x, sort_keys=True)[:-1] for x in hs)
+def instances(thorough):
+    """bounded instances of Sentinel.tla: one question each, so that no single state space is huge"""
+    k = 1 if thorough else 0
+    act = ACT + (' ' + COROLLARIES if thorough else '')
+    return [
+        # every subset of {flow, isolation, hot-parameter concurrency, breaker} with and without a system concurrency rule
+        inst('chain', 'MCChain', MaxOps=3 + k, act=act),
+        # batch counts > 1, thresholds > 1, everything loaded
+        inst('batch', 'MCBatch', Batches='{1, 2}', MaxOps=4 + k, MaxT=4 + k, act=ACT + ' ' + COROLLARIES),
+        # the system QPS rule (inbound window) next to a flow rule (resource window)
+        inst('sysqps', 'MCSysQ', Args=AN, Batches='{1, 2}', MaxOps=3 + k, MaxT=4 + k, act=act),
+        # hot-parameter QPS rule next to the concurrency rule, a flow rule and the breaker
+        inst('hotqps', 'MCHq', Args='{"a", "b"}', Batches='{1, 2}', Types=OUT, Steps='{1, 3}' if not thorough else '{1, 2, 3}', MaxOps=3 + k, MaxT=6 + k, act=act),
+        # reloads of every module while entries are in flight
+        inst('reload', 'MCReload', Reloads='MCReloads', Types=IN, Steps='{2}', MaxOps=4 + k, MaxRel=2, WithTrace='TRUE', act=act),
+        inst('reloadhq', 'MCReloadHq', Reloads='MCReloadsHq', Args='{"a"}', Types=OUT, Steps='{2, 3}', MaxOps=4 + k, MaxT=7, MaxRel=2, act=act),
+        # two resources under one system rule
+        inst('two', 'MCTwo', Res='{1, 2}', Reloads='MCReloadsTwo', Types=IO, Steps='{2}', MaxOps=3 + k, MaxT=3, MaxRel=1,
+             inv=INV + ' IndependentDecision', act=act),
+    ]
+
+
+# spec-level mutants: (Mut, instance to run it on, the clause that must reject it)
+MUTANTS = [
+    ('sysAfterFlow', 'chain', 'SystemFirst'),          # system slot consulted after the flow slot
+    ('sysOutbound', 'chain', 'SystemFirst'),           # system rules applied to outbound entries
+    ('hotBeforeFlow', 'hotqps', 'BlockedInvisible'),   # hotspot slot before the flow slot: a flow-blocked request has spent hot-parameter tokens
+    ('blockedCounts', 'chain', 'BlockedInvisible'),    # a blocked request occupies a hot-parameter unit
+    ('isoReset', 'reload', 'GaugeConserved'),          # an isolation reload resets the in-flight gauge
+    ('exitCurrent', 'reload', 'HotConserved'),         # an exit releases a unit of whatever counter is current (the code before 833b358)
+    ('cbForget', 'reload', 'ReloadKeeps'),             # an identical breaker reload forgets the breaker's state
+    ('shared', 'two', 'IndependentDecision'),          # one hot-parameter counter for all resources
+]
+
+
+def cfg_of(d, **over):
+    d = dict(d, **over)
+    if 'inv' in over or 'act' in over:
+        d['props'] = ('INVARIANTS %s\n' % d['inv'] if d['inv'] else '') + ('PROPERTIES %s\n' % d['act'] if d['act'] else '')
+    return CFG % d
+
+
+def parallel(c, jobs):
+    """run several TLC jobs side by side (c.tlc is synchronous); jobs = [(key, kwargs)] -> {key: TLCResult}"""
+    out, errs = {}, []
+
+    def work(key, kw):
+        try:
+            out[key] = c.tlc('Sentinel_MC', **kw)
+        except Exception as e:       # noqa
+            errs.append('%s: %s' % (key, e))
+    ths = []
+    for key, kw in jobs:
+        t = threading.Thread(target=work, args=(key, kw))
+        t.start()
+        ths.append(t)
+        time.sleep(0.3)              # c.tlc numbers its scratch directories: never start two in the same instant
+    for t in ths:
+        t.join()
+    if errs:
+        raise MachineryError('TLC jobs failed: ' + '; '.join(errs))
+    return out
+
+
+def tlc_jobs(c, thorough):
+    """every TLC run of S1 and S2, started side by side: the bounded instances, the spec-level mutants, the scenario generators"""
+    insts = instances(thorough)
+    jobs = [(d['name'], dict(cfg_text=cfg_of(d), workers=4 if not thorough else 8, timeout=240 if not thorough else 2400,
+                             heap='6g' if not thorough else '10g')) for d in insts]
+    jobs += [('gen%d' % i, dict(cfg_text=cfg_of(inst('gen', inv='', act='', extra='ACTION_CONSTRAINT Emit\n', **{k: v for k, v in g.items() if k != 'cap'})),
+                                workers=2, timeout=600, count=False, heap='2g')) for i, g in enumerate(GEN)]
+    nsim = 60 if not thorough else 1200
+    jobs += [('sim%d' % i, dict(cfg_text=cfg_of(inst('sim', inv='', act='', extra='ACTION_CONSTRAINT Emit\n', **g)), workers=1, timeout=600, count=False, heap='2g',
+                                args=['-simulate', 'num=%d' % nsim, '-depth', str(depth), '-seed', str(c.seed)]))
+             for i, (g, depth) in enumerate(SIM)]
+    by = {d['name']: d for d in insts}
+    for mut, on, clause in MUTANTS:
+        isinv = clause in INV.split() + ['IndependentDecision']
+        jobs.append((mut, dict(cfg_text=cfg_of(by[on], Mut=mut, inv=clause if isinv else '', act='' if isinv else clause), workers=2,
+                               timeout=300, count=False, heap='2g')))
+    return insts, jobs
+
+
+def model_check(c, insts, res):
+    per = {}
+    for d in insts:
+        r = res[d['name']]
+        if r.error:
+            raise MachineryError('TLC failed on Sentinel instance %s: %s\n%s' % (d['name'], r.error, r.out[-2500:]))
+        c.cov['states'] += r.distinct
+        c.cov['transitions'] += r.generated
+        per[d['name']] = r.distinct
+        c.log('S1 Sentinel/%s: %d distinct states, %d transitions, depth %d, %.0fs -> %s' % (
+            d['name'], r.distinct, r.generated, r.depth, r.wall, 'no error' if r.completed else 'VIOLATED ' + str(r.violated or 'deadlock')))
+        if not r.completed:
+            c.inconclusive.append('Sentinel.tla instance %s: %s violated - the composed design model is wrong' % (d['name'], r.violated))
+    c.cov['instances'] = per
+    c.cov['exhaustive'] = True
+    # the clauses are not vacuous: every deliberately broken composition is rejected by the clause named for it
+    rejected = []
+    for mut, on, clause in MUTANTS:
+        r = res[mut]
+        if r.violated != clause:
+            raise MachineryError('spec-level mutant %s was not rejected by %s on instance %s (%s)\n%s' % (
+                mut, clause, on, r.violated or r.error or 'no error', r.out[-1500:]))
+        rejected.append('%s: %s' % (mut, clause))
+    c.cov['spec_mutants_rejected'] = rejected
+    c.log('S1 %d spec-level mutants, each rejected by its clause: %s' % (len(rejected), ', '.join(rejected)))
+
+
+# ------------------------------------------------------------------------------------------------ scenarios
+def raw_hists(r):
+    """the histories printed by PrintT(ToJson(h')) as JSON TEXT (parsed only once they are chosen)"""
+    out = []
+    for l in r.out.splitlines():
+        if l.startswith('"['):
+            try:
+                out.append(json.loads(l))
+            except Exception:       # noqa
+                pass
+    return out
+
+
+def maximal(texts):
+    """drop every history that is a proper prefix of another one (h' = Append(h, op): a prefix of the text up to the bracket)"""
+    keys = sorted(t[:-1] for t in texts)
     out = []
     for i, k in enumerate(keys):
         if i + 1 < len(keys) and keys[i + 1].startswith(k) and (keys[i + 1] == k or keys[i + 1][len(k)] == ','):
             continue
-        out.append(json.loads(k + ']'))
+        out.append(k + ']')
     return out
+
+
+def pick(rng, hs, k):
+    """a sample of k histories: the verdict of an Entry is what is judged, so histories that END with an Entry come first, and
+    among them those with a reload before it"""
+    if len(hs) > k:
+        last = lambda t: t[t.rfind('"op":"') + 6:t.rfind('"op":"') + 11]
+        ent = [t for t in hs if last(t) == 'enter']
+        a = [t for t in ent if '"op":"reload"' in t]
+        b = [t for t in ent if '"op":"reload"' not in t]
+        rest = [t for t in hs if last(t) != 'enter']
+        out = rng.sample(a, min(len(a), k // 2))
+        out += rng.sample(b, min(len(b), (k - len(out)) * 2 // 3))
+        out += rng.sample(rest, min(len(rest), k - len(out)))
+        hs = out
+    return [json.loads(t) for t in hs]
 
 
 def from_hist(hist, tr, t0=1):
@@ -49,29 +208,149 @@ def from_hist(hist, tr, t0=1):
         o = dict(o)
         if o['op'] == 'new':
             o.update(tr=tr, t0=t0)
+        elif o['op'] == 'enter':
+            o.pop('ok', None)        # what the MODEL decided is not an input of the driver
+            o.pop('bt', None)
         s.append(o)
     return s
 
 
+NORULE = dict(flow=-1, iso=-1, hot=-1, hq=-1, hqB=0, hqD=1, cbE=-1, cbTO=1)
+
+
+def rand_rr(rng):
+    return dict(flow=rng.choice([-1, -1, 0, 1, 2, 3, 5]), iso=rng.choice([-1, -1, 1, 2, 3]), hot=rng.choice([-1, -1, 0, 1, 2]),
+                hq=rng.choice([-1, -1, -1, 0, 1, 2, 3]), hqB=rng.choice([0, 0, 0, 1, 2]), hqD=rng.choice([1, 1, 2]),
+                cbE=rng.choice([-1, -1, 0, 1, 1, 2, 3]), cbTO=rng.choice([1, 2, 3, 6]))
+
+
+def rand_sys(rng):
+    if rng.random() < 0.4:
+        return dict(conc=-1, qps=-1)
+    return dict(conc=rng.choice([-1, 0, 1, 2, 3]), qps=rng.choice([-1, -1, 0, 1, 2, 4]))
+
+
+def rand_reload(rng, R, bounce=False):
+    """a reload op (without via) for the current rule table R; updates R"""
+    n = len(R['res'])
+    mod = rng.choice(['flow', 'iso', 'hot', 'hot', 'hq', 'cb', 'cb', 'sys'])
+    same = rng.random() < 0.25
+    if bounce:                       # the rule is taken away (the caller then loads it again, changed or not): its runtime state starts afresh
+        r = rng.randint(1, n)
+        mod = rng.choice(['hot', 'hot', 'hq', 'cb'])
+        cur = R['res'][r - 1]
+        val = dict(v=-1) if mod == 'hot' else dict(hq=-1, hqB=cur['hqB'], hqD=cur['hqD']) if mod == 'hq' else dict(cbE=-1, cbTO=cur['cbTO'])
+        cur.update({mod: -1} if mod == 'hot' else val)
+        return dict(op='reload', r=r, mod=mod, val=val)
+    if mod == 'sys':
+        val = dict(R['sys']) if same else rand_sys(rng)
+        R['sys'] = dict(val)
+        return dict(op='reload', r=0, mod='sys', val=val)
+    r = rng.randint(1, n)
+    cur = R['res'][r - 1]
+    new = rand_rr(rng)
+    if mod in ('flow', 'iso', 'hot'):
+        v = cur[mod] if same else rng.choice([new[mod], -1, cur[mod] + 1 if cur[mod] >= 0 else 1, max(cur[mod] - 1, 1 if mod == 'iso' else 0) if cur[mod] >= 0 else 2])
+        cur[mod] = v
+        return dict(op='reload', r=r, mod=mod, val=dict(v=v))
+    if mod == 'hq':
+        val = dict(hq=cur['hq'], hqB=cur['hqB'], hqD=cur['hqD']) if same else dict(hq=new['hq'], hqB=new['hqB'], hqD=rng.choice([cur['hqD'], cur['hqD'], new['hqD']]))
+    else:
+        val = dict(cbE=cur['cbE'], cbTO=cur['cbTO']) if same else dict(cbE=new['cbE'], cbTO=rng.choice([cur['cbTO'], new['cbTO']]))
+    cur.update(val)
+    return dict(op='reload', r=r, mod=mod, val=val)
+
+
 def random_scenario(rng, tr):
-    R = dict(flow=rng.choice([-1, 0, 1, 2, 3, 5]), iso=rng.choice([-1, 1, 2, 3]), hot=rng.choice([-1, 0, 1, 2]),
-             cbE=rng.choice([-1, 1, 1, 2, 3]), cbTO=rng.choice([1, 2, 3, 6]))
-    s = [dict(op='new', tr=tr, rules=R, t0=rng.choice([1, 2, 7]))]
-    live, nid = [], 0
-    for _ in range(rng.randint(8, 40)):
+    n = rng.choice([1, 1, 2])
+    R = dict(sys=rand_sys(rng), res=[rand_rr(rng) for _ in range(n)])
+    s = [dict(op='new', tr=tr, rules=json.loads(json.dumps(R)), t0=rng.choice([1, 2, 7]))]
+    pin = 0.75 if (R['sys']['conc'] >= 0 or R['sys']['qps'] >= 0) else 0.3
+    preload = rng.random() < 0.5       # half of the histories replace rules under traffic
+    live, done, nid = [], [], 0
+    for _ in range(rng.randint(8, 44)):
         x = rng.random()
-        if x < 0.5:
+        if x < 0.46:
             nid += 1
-            s.append(dict(op='enter', id=nid, b=rng.choice([1, 1, 1, 2, 3]), arg=rng.choice(['a', 'a', 'b', 'c', 'none'])))
-            live.append(nid)
-        elif x < 0.8 and live:
+            s.append(dict(op='enter', r=rng.randint(1, n), id=nid, b=rng.choice([1, 1, 1, 2, 3]), arg=rng.choice(['a', 'a', 'b', 'c', 'none']),
+                          ty='in' if rng.random() < pin else 'out'))
+            live.append(nid)           # (a refused request is simply ignored by the later ops on its id)
+        elif x < 0.72 and live:
             i = rng.choice([0, -1, rng.randrange(len(live))])
-            s.append(dict(op='exit', id=live.pop(i), err=rng.random() < 0.45))
+            e = live.pop(i)
+            done.append(e)
+            s.append(dict(op='exit', id=e, err=rng.random() < 0.45, via=rng.choice(['exit', 'trace'])))
+        elif x < 0.76 and live:
+            s.append(dict(op='trace', id=rng.choice(live)))
+        elif x < 0.80 and done:
+            s.append(dict(op='late', id=rng.choice(done), how=rng.choice(['exit', 'exiterr', 'trace'])))
+        elif x < 0.88 and preload:
+            if rng.random() < 0.25:    # remove a rule and load one of the same kind again at once
+                o = rand_reload(rng, R, bounce=True)
+                o['via'] = rng.choice(['res', 'res', 'all'])
+                s.append(o)
+                new = rand_rr(rng)
+                while new[dict(hot='hot', hq='hq', cb='cbE')[o['mod']]] < 0:
+                    new = rand_rr(rng)
+                cur = R['res'][o['r'] - 1]
+                val = dict(v=new['hot']) if o['mod'] == 'hot' else dict(hq=new['hq'], hqB=new['hqB'], hqD=new['hqD']) if o['mod'] == 'hq' else dict(cbE=new['cbE'], cbTO=new['cbTO'])
+                cur.update(dict(hot=new['hot']) if o['mod'] == 'hot' else val)
+                s.append(dict(op='reload', r=o['r'], mod=o['mod'], val=val, via=rng.choice(['res', 'res', 'all'])))
+                continue
+            o = rand_reload(rng, R)
+            o['via'] = rng.choice(['res', 'res', 'all'])
+            s.append(o)
         else:
-            s.append(dict(op='tick', d=rng.choice([1, 1, 2, 3, R['cbTO'], R['cbTO'] + 1])))
+            tos = [rr['cbTO'] for rr in R['res']] + [2 * rr['hqD'] + 1 for rr in R['res']]
+            s.append(dict(op='tick', d=rng.choice([1, 1, 2, 3] + tos + [t + 1 for t in tos])))
     return s
 
 
+def directed(tr0):
+    """hand-written histories, one per clause that a reload / the system slot adds"""
+    out = []
+
+    def S(rules, *ops):
+        out.append([dict(op='new', tr=tr0 + len(out) + 1, rules=rules, t0=1)] + list(ops))
+
+    def R1(sys=None, **kw):
+        return dict(sys=sys or dict(conc=-1, qps=-1), res=[dict(NORULE, **kw)])
+    E = lambda i, arg='a', ty='out', b=1, r=1: dict(op='enter', r=r, id=i, b=b, arg=arg, ty=ty)
+    X = lambda i, err=False, via='exit': dict(op='exit', id=i, err=err, via=via)
+    T = lambda d: dict(op='tick', d=d)
+    RL = lambda mod, val, r=1, via='res': dict(op='reload', r=r, mod=mod, val=val, via=via)
+    for via in ('res', 'all'):
+        # /repo 833b358: entries admitted before the hotspot rule was replaced must not release units of the new counters
+        S(R1(hot=2), E(1), E(2), RL('hot', dict(v=-1), via=via), RL('hot', dict(v=2), via=via), E(3), E(4), X(1), X(2), E(5), X(3), E(6), E(7))
+        # a mere change of threshold keeps the counters
+        S(R1(hot=2), E(1), E(2), RL('hot', dict(v=3), via=via), E(3), E(4), RL('hot', dict(v=1), via=via), X(1), E(5), X(2), X(3), E(6), E(7))
+        # isolation: the gauge survives a reload, the new threshold applies at once
+        S(R1(iso=2), E(1), E(2), E(3), RL('iso', dict(v=3), via=via), E(4), E(5), RL('iso', dict(v=1), via=via), X(1), X(2), E(6), X(4), E(7))
+        # flow: the window survives a reload
+        S(R1(flow=2), E(1, b=2), E(2), RL('flow', dict(v=3), via=via), E(3), E(4), T(1), E(5), T(1), E(6, b=3), RL('flow', dict(v=-1), via=via), E(7, b=3), RL('flow', dict(v=1), via=via), E(8))
+        # breaker: identical reload keeps Open, changed one starts Closed (on the same counters), timeout of the rule in force
+        S(R1(cbE=1, cbTO=2), E(1), X(1, True), E(2), RL('cb', dict(cbE=1, cbTO=2), via=via), E(3), T(2), E(4), X(4, True, 'trace'), E(5),
+          RL('cb', dict(cbE=2, cbTO=2), via=via), E(6), X(6), E(7), RL('cb', dict(cbE=3, cbTO=3), via=via), E(8), X(8, True), E(9), T(2), E(10), T(1), E(11))
+        # hot-parameter QPS: buckets survive a change of threshold, restart when the duration changes
+        S(R1(hq=2), E(1, b=2), E(2), RL('hq', dict(hq=3, hqB=0, hqD=1), via=via), E(3), T(3), E(4, b=3), E(5), RL('hq', dict(hq=3, hqB=0, hqD=2), via=via), E(6, b=3), E(7))
+    # system slot first: an inbound request refused by the system rule consumes no flow quota, no hot-parameter token, is no probe
+    S(R1(sys=dict(conc=1, qps=-1), flow=2, hq=1, cbE=1, cbTO=2), E(1, ty='in'), E(2, ty='in'), E(3, ty='out'), E(4, ty='out'), X(1, True),
+      E(5, 'b', 'in'), T(2), E(6, 'b', 'in'), E(7, 'b', 'in'), E(8, 'b', 'out'))
+    S(R1(sys=dict(conc=-1, qps=2), flow=5), E(1, ty='in', b=2), E(2, ty='in'), E(3, ty='out'), T(1), E(4, ty='in'), T(1), E(5, ty='in'), E(6, ty='in'), E(7, ty='in'),
+      RL('sys', dict(conc=-1, qps=4), r=0), E(8, ty='in'), E(9, ty='in', b=3), E(10, ty='in'))
+    # a request that passed the hotspot slot and is refused by the breaker has spent its hot-parameter tokens
+    S(R1(hq=2, cbE=1, cbTO=2), E(1), X(1, True), E(2), T(2), E(3), E(4), X(3), E(5))
+    # two resources: r2 never changes a verdict on r1 except through the inbound node
+    two = dict(sys=dict(conc=2, qps=-1), res=[dict(NORULE, flow=1, hot=1), dict(NORULE, iso=1, cbE=1, cbTO=2)])
+    S(two, E(1, r=2, ty='in'), E(2, r=2, ty='out'), E(3, r=1, ty='in'), E(4, r=1, ty='in'), E(5, r=2, ty='in'), X(1, True), E(6, r=1, ty='in'), T(2), E(7, r=1, ty='in'),
+      E(8, r=2, ty='in'), E(9, r=1, arg='b', ty='in'), X(3), X(7), E(10, r=1, arg='b', ty='in'))
+    # late and repeated calls change nothing
+    S(R1(sys=dict(conc=2, qps=-1), iso=1, hot=1, cbE=1, cbTO=2), E(1, ty='in'), X(1), dict(op='late', id=1, how='exiterr'), dict(op='late', id=1, how='trace'),
+      dict(op='late', id=1, how='exit'), E(2, ty='in'), dict(op='late', id=1, how='exiterr'), E(3, ty='in'), X(2), E(4, ty='in'))
+    return out
+
+
+# ------------------------------------------------------------------------------------------------ drive / validate
 def run_and_validate(c, drv, scns, tag):
     sp = os.path.join(c.scratch, tag + '.scn.ndjson')
     tp = os.path.join(c.scratch, tag + '.trace.ndjson')
@@ -98,24 +377,30 @@ def handle(c, drv, scns, mism, tag):
         if ok < 2:
             c.inconclusive.append('mismatch of %s trace %d did not reproduce (%d/2)' % (tag, tr, ok))
             continue
-        c.violation('decision / block type of the real default chain differs from the composition at line %d of trace %d: %s' % (line, tr, exp[:600]), rp)
+        c.violation('decision / block type / gauge of the real default chain differs from the composition at line %d of trace %d: %s' % (line, tr, exp[:700]), rp)
 
 
 def binding_selftest(c, tp):
+    """corrupt ONE recorded observable (decision, block type or a gauge) in each of the first traces: every one must be rejected"""
     lines = [json.loads(l) for l in open(tp)]
     out, want, n, done = [], set(), 0, True
     for e in lines:
         if e['op'] == 'new':
             n += 1
-            if n > 40:
+            if n > 60:
                 break
             done = False
-        elif e['op'] == 'enter' and not done and c.rng.random() < 0.4:
+        elif e['op'] in ('enter', 'exit') and not done and c.rng.random() < 0.4:
             e = dict(e)
-            if e['ok']:
+            k = c.rng.randrange(3) if e['op'] == 'enter' else 2
+            if k == 0 and e['ok']:
                 e['ok'], e['bt'] = False, 'flow'
+            elif k <= 1 and not e['ok']:
+                e['bt'] = 'breaker' if e['bt'] != 'breaker' else 'system'
+            elif c.rng.random() < 0.5:
+                e['gi'] += 1
             else:
-                e['bt'] = 'breaker' if e['bt'] != 'breaker' else 'isolation'
+                e['gr'] += 1
             done = True
             want.add(n)
         out.append(e)
@@ -128,10 +413,59 @@ def binding_selftest(c, tp):
             k += 1
             trs[e['tr']] = k
     got = {trs[m[0]] for m in mism}
-    if got != want:
+    if got != want or len(want) < 10:
         raise MachineryError('binding self-test failed: corrupted %s, rejected %s' % (sorted(want), sorted(got)))
     c.cov['binding_selftest'] = '%d corrupted traces, all rejected' % len(want)
     c.log('binding self-test: %d corrupted traces, all rejected' % len(want))
+
+
+GEN = [  # small instances whose every transition becomes a scenario
+    dict(Rules='MCGen1', Reloads='MCReloadsGen', Steps='{2}', MaxOps=3, MaxT=3, MaxRel=1),
+    dict(Rules='MCGen2', Res='{1, 2}', Reloads='MCReloadsTwo', Steps='{2}', MaxOps=3, MaxT=3, MaxRel=1),
+    # (no VIEW: histories that end in the same abstract state are NOT merged - for the real code they may differ)
+    dict(Rules='MCGenHot', Reloads='MCReloadsHot', Args='{"a"}', Types=OUT, Steps='{}', MaxOps=3, MaxT=1, MaxRel=2, view='', cap=5000),
+]
+SIM = [  # (instance, depth): TLC random walks through much larger bounds
+    (dict(Rules='MCChain', Args=A3, Batches='{1, 2}', MaxOps=14, MaxT=16, WithTrace='TRUE', WithLate='TRUE'), 30),
+    (dict(Rules='MCReload', Reloads='MCReloads', Args=A3, Batches='{1, 2}', MaxOps=14, MaxT=16, MaxRel=5, WithTrace='TRUE'), 34),
+    (dict(Rules='MCHq', Reloads='MCReloadsHq', Args=A3, Batches='{1, 2}', Steps='{1, 2, 3}', MaxOps=14, MaxT=20, MaxRel=3), 34),
+    (dict(Rules='MCTwo', Res='{1, 2}', Reloads='MCReloadsTwo', Batches='{1, 2}', MaxOps=14, MaxT=14, MaxRel=3, WithLate='TRUE'), 34),
+]
+
+
+def scenarios(c, thorough, res):
+    scns, tr = [], 0
+    cap = 2500 if not thorough else 30000
+    ncover = 0
+    for i in range(len(GEN)):
+        r = res['gen%d' % i]
+        if not (r.completed or r.deadlock):
+            raise MachineryError('scenario generation (gen%d) failed: %s\n%s' % (i, r.error or r.violated, r.out[-1500:]))
+        hs = maximal(raw_hists(r))
+        k = max(cap, GEN[i].get('cap', 0))
+        hs = pick(c.rng, hs, k)
+        for h in hs:
+            tr += 1
+            scns.append(from_hist(h, tr))
+        ncover += len(hs)
+    nsimu = 0
+    for i in range(len(SIM)):
+        # (in simulation mode TLC evaluates the constraint on every candidate successor: the walks and their one-step siblings)
+        hs = maximal(raw_hists(res['sim%d' % i]))
+        if len(hs) > cap // 3:
+            hs = sorted(hs, key=len)[-cap // 6:] + c.rng.sample(hs, cap // 6)
+        for h in [json.loads(t) for t in hs]:
+            tr += 1
+            nsimu += 1
+            scns.append(from_hist(h, tr))
+    for _ in range(2000 if not thorough else 40000):
+        tr += 1
+        scns.append(random_scenario(c.rng, tr))
+    d = directed(tr)
+    scns += d
+    c.log('S2: %d transition-cover scenarios, %d TLC simulations, %d seeded random histories, %d directed' % (
+        ncover, nsimu, len(scns) - ncover - nsimu - len(d), len(d)))
+    return scns
 
 
 def check(c, tier, replay):
@@ -145,30 +479,10 @@ def check(c, tier, replay):
         c.sample(s[:6])
         return
     thorough = tier == 'thorough'
-    r = c.model_check('Sentinel_MC', cfg_text=cfg(maxops=4 if not thorough else 5, maxt=6), workers=8, timeout=3000, heap='14g')
-    if not r.completed:
-        c.inconclusive.append('Sentinel.tla: %s violated - the composed design model is wrong' % r.violated)
-    c.cov['exhaustive'] = True
-    scns, tr = [], 0
-    r = c.tlc('Sentinel_MC', cfg_text=cfg(rules='MCRulesAll', maxops=3, maxt=5, props='', extra='ACTION_CONSTRAINT Emit\n'), workers=4, timeout=900, count=False)
-    hs = maximal(r.json_prints())
-    cap = 2500 if not thorough else 40000
-    if len(hs) > cap:
-        hs = c.rng.sample(hs, cap)
-    for h in hs:
-        tr += 1
-        scns.append(from_hist(h, tr))
-    ncover = len(scns)
-    r = c.tlc('Sentinel_MC', cfg_text=cfg(rules='MCRules', maxops=12, maxt=14, props='', extra='ACTION_CONSTRAINT Emit\n'), workers=1, timeout=900, count=False,
-              args=['-simulate', 'num=%d' % (200 if not thorough else 3000), '-depth', '26', '-seed', str(c.seed)])
-    for h in maximal(r.json_prints()):
-        tr += 1
-        scns.append(from_hist(h, tr))
-    nsim = len(scns) - ncover
-    for _ in range(1200 if not thorough else 20000):
-        tr += 1
-        scns.append(random_scenario(c.rng, tr))
-    c.log('S2: %d transition-cover scenarios, %d TLC simulations, %d seeded random histories' % (ncover, nsim, len(scns) - ncover - nsim))
+    insts, jobs = tlc_jobs(c, thorough)
+    res = parallel(c, jobs)
+    model_check(c, insts, res)
+    scns = scenarios(c, thorough, res)
     first = True
     for i in range(0, len(scns), 5000):
         part = scns[i:i + 5000]
@@ -178,13 +492,24 @@ def check(c, tier, replay):
         if first and not c.violations:
             binding_selftest(c, tp)
             first = False
-    c.cov['distinct_nontrivial'] = len({json.dumps(s[1:], sort_keys=True) + json.dumps(s[0]['rules'], sort_keys=True) for s in scns
-                                        if sum(1 for k in ('flow', 'iso', 'hot', 'cbE') if s[0]['rules'][k] >= 0) >= 2})
-    c.cov['rule'] = 'non-trivial = distinct scenario with at least two rule kinds loaded on the resource'
+
+    def kinds(s):
+        R = s[0]['rules']
+        k = {m for rr in R['res'] for m in ('flow', 'iso', 'hot', 'hq', 'cbE') if rr[m] >= 0}
+        k |= {'sys'} if R['sys']['conc'] >= 0 or R['sys']['qps'] >= 0 else set()
+        k |= {o['mod'] for o in s if o['op'] == 'reload'}
+        return k
+    c.cov['distinct_nontrivial'] = len({json.dumps(s[1:], sort_keys=True) + json.dumps(s[0]['rules'], sort_keys=True) for s in scns if len(kinds(s)) >= 2})
+    c.cov['rule'] = 'non-trivial = distinct scenario in which at least two rule kinds (system, flow, isolation, hot-parameter concurrency / QPS, breaker) are loaded or reloaded'
+    c.cov['scenarios_with_reload'] = sum(1 for s in scns if any(o['op'] == 'reload' for o in s))
+    c.cov['scenarios_with_system_rule'] = sum(1 for s in scns if s[0]['rules']['sys']['conc'] >= 0 or s[0]['rules']['sys']['qps'] >= 0)
+    c.cov['scenarios_with_two_resources'] = sum(1 for s in scns if len(s[0]['rules']['res']) == 2)
     c.sample(scns[0][:8])
     c.sample(scns[-1][:10])
-    c.assumptions += ['one rule per module on the resource; breaker: error-count strategy, minimum amount 1, probe number 0, statistic bucket that does not '
-                      'roll within a scenario; one tick = 500 ms (the bucket length of the default flow statistic)']
+    c.assumptions += ['one rule per kind and resource (hot-parameter: the concurrency rule before the QPS rule); breaker: error-count strategy, minimum amount 1, '
+                      'probe number 0, statistic bucket that does not roll within a scenario; one tick = 500 ms (the bucket length of the default statistic); '
+                      'hot-parameter QPS: reject mode, the operators of HotParamQpsOps with the cache far from its capacity; system rules: Concurrency and '
+                      'InboundQPS; operations are sequential (no two calls overlap)']
 
 
 main('COMPOSE', check)
